@@ -146,8 +146,17 @@ def run(pid, tier, seed, replay=None):
     exe = corerun.build_core("rec")
     with vlib.Scratch("verif-" + pid) as sc:
         scripts = [vlib.read(replay)] if replay else gen(tier, seed)
-        idx = corerun.script_index(scripts)
         tfs = corerun.run_scripts(exe, scripts, sc, tag="run")
+        if not replay:
+            # the two-thread child-wait scenarios with their schedules enumerated (iterative context bounding)
+            import mtcheck
+            import sigcheck
+            for name, (opts, body) in sorted(sigcheck.SMALL["C11"].items()):
+                s_, t_, _n, _c = mtcheck.enumerate_schedules(exe, sc, name, body, "epoll memrec=2 " + opts, [],
+                                                             60 if tier == "quick" else 1500, "C14e")
+                scripts += s_
+                tfs += t_
+        idx = corerun.script_index(scripts)
         pdir = sc.sub("pre")
         pre, names = [], {}
         for i, tf in enumerate(tfs):
